@@ -192,6 +192,22 @@ def _affine_value(eqs, l):
     return l.k if not l.t else None
 
 
+def subst_all(cs, v, by):
+    """Constraint list with variable v replaced by the linear form `by` (an invertible assignment v := f(v) is the
+    substitution of f's inverse)."""
+    out = []
+    for c in cs:
+        if not isinstance(c, tuple):
+            out.append(c)
+            continue
+        if v in dict(c[0]):
+            c = le0(_lin_of_con(c).subst(v, by))
+            if c is True:
+                continue
+        out.append(c)
+    return out
+
+
 def _reduce(cs):
     """An equivalent, smaller constraint list: the equalities among cs are replaced by a reduced basis (Gauss-Jordan), their
     pivot variables are substituted out of the inequalities, duplicates and trivially true results are dropped.  (A join
@@ -295,6 +311,7 @@ class Analysis:
         self.quiet = set(quiet)
         self.inline = inline or {}
         self.post = post or {}
+        self.ghost = None      # optional object with on_atom(analysis, cons_list, op, L, R, Lelem, Relem) -> cons_list
         self.depth = depth
         self.track = track                       # None, or a predicate on variable terms: untracked terms are opaque (slicing)
         self.unsigned = set(unsigned_terms)      # variables known to be of an unsigned type (>= 0 always)
@@ -828,6 +845,14 @@ class Analysis:
     def _refine(self, st, cond, kind):
         """Constraint sets (usually one; two when a != test splits an interval) for `st` on the given edge of `cond`."""
         alts = [list(st)]
+        if self.ghost is not None:
+            # a rule's ghost state (e.g. "how many leading bytes are known not to be NUL") learns from the edge first, in the
+            # state the test was made in
+            if kind in (True, False):
+                for op, L, R, Le, Re in cond_atoms(cond, kind):
+                    alts = [self.ghost.on_atom(self, cs, op, L, R, Le, Re) for cs in alts]
+            elif isinstance(kind, tuple) and kind[0] == "case" and isinstance(kind[1], int):
+                alts = [self.ghost.on_atom(self, cs, "==", norm(cond), ("c", kind[1]), cond, None) for cs in alts]
         if kind in (True, False):
             for op, L, R, Le, Re in cond_atoms(cond, kind):
                 # the atom's constants are authoritative (cond_atoms also reports x > 4 as x >= 5 with the original elements)
